@@ -195,6 +195,9 @@ class World:
                 tags = dict(creator.tags)
                 tags["background"] = True
                 self._w = world.sched.spawn(f"{creator.name}.bg{world._nbg}", lambda: self._target(*self._args, **self._kwargs), tags=tags)
+                # Thread.start() is a preemption point: the new thread may run - even to completion - before its creator
+                # executes the statement after start()
+                world.sched.point("thread_start")
 
             def join(self, timeout=None):
                 world.sched.point("join", enabled=lambda: self._w.state == "done")
